@@ -122,3 +122,87 @@ Definition date_agree (s : list Z) (py : option Z) : bool :=
   | None, _ => true
   end.
 
+
+(* ================= datetimes: what datetime.isoformat writes ================= *)
+(* ---------- model ---------- *)
+Definition colon : Z := 58.
+Definition dot : Z := 46.
+Definition tee : Z := 84.
+Definition plus : Z := 43.
+
+Definition time_iso (H M Sc : Z) : list Z := to_dec 2 H ++ colon :: to_dec 2 M ++ colon :: to_dec 2 Sc.
+Definition frac_iso (us : Z) : list Z := if us =? 0 then [] else dot :: to_dec 6 us.
+Definition off_iso (tz : option Z) : list Z :=
+  match tz with
+  | None => []
+  | Some o => (if o <? 0 then dash else plus) :: to_dec 2 (Z.abs o / 3600) ++ colon :: to_dec 2 (Z.abs o mod 3600 / 60)
+  end.
+
+(* datetime(y, m, d, H, M, Sc, us, tzinfo).isoformat() for offsets that are whole minutes *)
+Definition datetime_iso (y m d H M Sc us : Z) (tz : option Z) : list Z :=
+  date_iso y m d ++ tee :: time_iso H M Sc ++ frac_iso us ++ off_iso tz.
+
+Definition valid_time (H M Sc us : Z) : bool :=
+  (0 <=? H) && (H <? 24) && (0 <=? M) && (M <? 60) && (0 <=? Sc) && (Sc <? 60) && (0 <=? us) && (us <? 1000000).
+Definition valid_off (tz : option Z) : bool :=
+  match tz with None => true | Some o => (-86400 <? o) && (o <? 86400) && (o mod 60 =? 0) end.
+
+(* the model's VDatetime: wall-clock microseconds since 0001-01-01T00:00:00, and the offset in seconds *)
+Definition dt_us (y m d H M Sc us : Z) : Z :=
+  (ymd2ord y m d - 1) * 86400000000 + ((H * 60 + M) * 60 + Sc) * 1000000 + us.
+
+Definition parse_time (s : list Z) : option (Z * Z * Z) :=
+  if Nat.eqb (length s) 8 && (nth 2 s 0 =? colon) && (nth 5 s 0 =? colon) then
+    match of_dec 0 (firstn 2 s), of_dec 0 (firstn 2 (skipn 3 s)), of_dec 0 (skipn 6 s) with
+    | Some H, Some M, Some Sc => if (H <? 24) && (M <? 60) && (Sc <? 60) then Some (H, M, Sc) else None
+    | _, _, _ => None
+    end
+  else None.
+
+Definition parse_off (s : list Z) : option (option Z) :=
+  match s with
+  | [] => Some None
+  | sg :: r =>
+      if Nat.eqb (length r) 5 && ((sg =? plus) || (sg =? dash)) && (nth 2 r 0 =? colon) then
+        match of_dec 0 (firstn 2 r), of_dec 0 (skipn 3 r) with
+        | Some h, Some mi =>
+            if (h <? 24) && (mi <? 60) then Some (Some ((if sg =? dash then -1 else 1) * (h * 3600 + mi * 60))) else None
+        | _, _ => None
+        end
+      else None
+  end.
+
+(* datetime.fromisoformat restricted to what isoformat writes (T separator, seconds, optional six-digit
+   fraction, optional +HH:MM offset): whenever it answers, fromisoformat answers the same *)
+Definition datetime_parse (s : list Z) : option (Z * Z * Z * Z * Z * Z * Z * option Z) :=
+  match date_parse (firstn 10 s) with
+  | Some (y, m, d) =>
+      if nth 10 s 0 =? tee then
+        match parse_time (firstn 8 (skipn 11 s)) with
+        | Some (H, M, Sc) =>
+            match skipn 19 s with
+            | c :: r =>
+                if c =? dot then
+                  if Nat.leb 6 (length r) then
+                    match of_dec 0 (firstn 6 r), parse_off (skipn 6 r) with
+                    | Some u, Some tz => Some (y, m, d, H, M, Sc, u, tz)
+                    | _, _ => None
+                    end
+                  else None
+                else match parse_off (c :: r) with Some tz => Some (y, m, d, H, M, Sc, 0, tz) | None => None end
+            | [] => Some (y, m, d, H, M, Sc, 0, None)
+            end
+        | None => None
+        end
+      else None
+  | None => None
+  end.
+
+Definition datetime_agree (s : list Z) (py : option (Z * option Z)) : bool :=
+  match datetime_parse s, py with
+  | Some (y, m, d, H, M, Sc, u, tz), Some (n, tz') =>
+      (dt_us y m d H M Sc u =? n) && match tz, tz' with None, None => true | Some a, Some b => a =? b | _, _ => false end
+  | Some _, None => false
+  | None, _ => true
+  end.
+
